@@ -426,7 +426,7 @@ def check_property(pid, tier, seed, replay_only=None):
             r = kres[h.name]
             entry = {'harness': h.name, 'file': 'kani/' + h.file, 'appended_to': h.target, 'kind': h.kind, 'bound': h.bound,
                      'backend': ('rustc type checker (cargo check)' if h.kind == 'rustc' else 'kani 0.68 / cbmc 6.11'),
-                     'companion_of': h.companion, 'status': r['status'], 'cbmc_checks': r['checks'], 'time_s': r['time_s']}
+                     'companion_of': h.companion, 'decides': getattr(h, 'decides', ''), 'status': r['status'], 'cbmc_checks': r['checks'], 'time_s': r['time_s']}
             kani_results.append(entry)
             if r['status'] == 'SUCCESS':
                 continue
@@ -468,7 +468,7 @@ def check_property(pid, tier, seed, replay_only=None):
             continue
         # a COMPLETE Kani proof (loop-free harness over the full input domain) of the same function's contract that succeeds on
         # this tree decides the contract; a Verus failure there is a proof-maintenance matter, not a violation
-        comp = [k for k in kani_results if k.get('companion_of') == f['function'] and k['kind'] == 'complete']
+        comp = [k for k in kani_results if k.get('decides') == f['function'] and k['kind'] == 'complete']
         if not f.get('kani') and comp and all(k['status'] == 'SUCCESS' for k in comp):
             msg = ('%s: Verus could not re-prove %s, but the complete Kani proof of the same contract (%s) succeeds on this tree: '
                    'the contract holds, the Verus annotations need maintenance' % (f['function'], f['obligation'], ', '.join(k['harness'] for k in comp)))
